@@ -226,7 +226,7 @@ func reportC20(ca *checkArgs, binD, binP string, idx uint64) string {
 	tr["note"] = fmt.Sprintf("minimised by ddmin in %d candidate replays under both builds", tries)
 	tr["violation"] = map[string]interface{}{"property": "C20", "oracle": "builds-disagree", "key": "builds-disagree", "step": step,
 		"detail": fmt.Sprintf("step %d differs: default build: %s | purego build: %s", step, x, y)}
-	dir := filepath.Join(verifDir, "replays", "C20")
+	dir := filepath.Join(outDir, "replays", "C20")
 	os.MkdirAll(dir, 0o755)
 	path := filepath.Join(dir, fmt.Sprintf("builds-disagree_seed%d_run%d.json", ca.seed, idx))
 	b, _ := json.MarshalIndent(tr, "", " ")
